@@ -4,12 +4,12 @@
     c09 <mode> <n> <fspec>*n <op>*
       mode  : plain | iter
       fspec : <fail> <pre> <post> <cse> <spec>
-              fail = ok | unk | raise | at<k>   ;  pre/post = captured-message counts ; cse = 0|1
+              fail = ok | unk | raise:<raw> | at<k>:<raw>  (raw = name | rec | other) ;  pre/post = captured-message counts ; cse = 0|1
               spec as in Drv/C01: I <val> | F ref j | F add a b | F cat k j*k | F sum k j*k | F cnt k j*k
                                   | F idx r row col | R rows cols j*
       op    : E i | S i <val>
   Answer: one item per operation joined by ';' — the value token returned by `evaluate`, or
-  `!exc:pycel:UnknownFunction` / `!exc:pycel:FormulaEvalError` / `!exc:bare:RecursionError` /
+  `!exc:pycel:UnknownFunction` / `!exc:pycel:FormulaEvalError` / `!exc:reraised:RecursionError` (eval_func's re-raise) /
   `!exc:bare:AssertionError`; `ok`/`rej` for a `set_value`.
   The model runs with the repaired error-message discipline and the repaired iterative `_eval`.
   Trusted glue, not part of any theorem.
@@ -20,12 +20,24 @@ import Pycel.Drv.C01
 namespace Pycel.Drv.C09
 open Pycel Pycel.Engine Pycel.EngineInst Pycel.Failure Pycel.Failure.Inst
 
-def parseMode (t : String) : Option Mode :=
-  if t = "ok" then some .ok
-  else if t = "unk" then some .unknown
-  else if t = "raise" then some .raises
-  else if t.startsWith "at" then (t.drop 2).toString.toNat?.map Mode.failAt
+def parseRaw (t : String) : Option Raw :=
+  if t = "name" then some .nameError
+  else if t = "rec" then some .recursion
+  else if t = "other" then some .other
   else none
+
+def parseMode (t : String) : Option Mode :=
+  match t.splitOn ":" with
+  | ["ok"] => some .ok
+  | ["unk"] => some .unknown
+  | ["raise", r] => (parseRaw r).map Mode.raises
+  | [a, r] =>
+    if a.startsWith "at" then do
+      let k ← (a.drop 2).toString.toNat?
+      let r ← parseRaw r
+      some (.failAt k r)
+    else none
+  | _ => none
 
 partial def parseFSpecs : Nat → List String → Option (List FSpec × List String)
   | 0, ts => some ([], ts)
@@ -56,7 +68,7 @@ partial def parseOps : List String → Option (List DOp)
 def encFail : Fail → String
   | .unknownFunction => "!exc:pycel:UnknownFunction"
   | .formulaEval => "!exc:pycel:FormulaEvalError"
-  | .recursion => "!exc:bare:RecursionError"
+  | .recursion => "!exc:reraised:RecursionError"
   | .assertion => "!exc:bare:AssertionError"
 
 def encR : R EV → String
